@@ -6,7 +6,7 @@ CONSTANTS
   MaxSess = 3
   TMax = 7
   Depth = 5
-  MaxGap = 3
+  MaxGap = 2
 SPECIFICATION Spec
 INVARIANT Inv
 INVARIANT Emit
